@@ -38,6 +38,21 @@ def build_chain(cs, tier):
         cfg = g.cfg(index=cs)
         h = common.History(cfg, cs, rng.choice(['std', 'grow', 'links', 'names']), max_size=5000)
         h.extend(rng.choice([6, 14, 25]))
+        if rng.random() < 0.6:
+            # link structures that only a parser has to reconstruct: several names per content in
+            # every namespace (incl. several UDF names of one file), empty files with several names
+            for length in (rng.choice([1, 3000]), 0):
+                op = h.gen.op_add_fp(h.sess.model, length=length, spread='all')
+                if h.apply(op).ok:
+                    first = ('iso', op['iso_path']) if op.get('iso_path') else None
+                    for _ in range(rng.choice([1, 2, 3])):
+                        lk = h.gen.op_add_hard_link(h.sess.model)
+                        if lk is not None and first is not None:
+                            lk['old'] = first
+                            if cfg.udf and rng.random() < 0.6:
+                                lk['new'] = ('udf', '/' + h.gen.udf_name())
+                                lk.pop('rr_name', None)
+                            h.apply(lk)
         ops0 = list(h.ops)
         h.sess.close()
     return cfg, ops0, rng.choice([1, 1, 2, 3, 4])
@@ -74,8 +89,17 @@ def run_chain(cfg, ops0, gens_ops, seed, counters, ngen=None, record=None):
                 applied.append(op)
         else:
             g2.profile = rng.choice(['churn', 'churn', 'links', 'std'])
-            for _ in range(rng.choice([2, 5, 10, 18])):
+            nops_g = rng.choice([2, 5, 10, 18])
+            for k_ in range(nops_g):
                 op = g2.gen_op(s2.model)
+                if k_ == 0 and rng.random() < 0.5:
+                    # first edit after the parse: unlink one name of a content that has several
+                    multi = [(ns, p) for ns in ('udf', 'joliet', 'iso') for p, n in s2.model.ns[ns].items()
+                             if n.kind == 'file' and n.cid is not None and n.cid != 'catalog' and len(s2.model.names_of(n.cid)) >= 3
+                             and not s2.model.boot_refs(n.cid)]
+                    if multi:
+                        ns_, p_ = rng.choice(multi[:6])
+                        op = {'op': 'rm_hard_link', '%s_path' % ns_: p_}
                 o = s2.step(op)
                 applied.append(op)      # refused calls stay in the record: they must not change anything
                 if not o.ok:
